@@ -5,7 +5,7 @@ from vlib import enc
 from checklib import Scenario
 
 RULE = ("two-layer trees under $ECONFTOOL_ROOT (vendor /usr/etc, local /etc) and single absolute files x --delimiters / "
-        "--comment choices x files with only group-less keys, only sections, both, empty sections, multi-line values, "
+        "--comment choices (one character and sets of two) x files using both comment characters, files with only group-less keys, only sections, both, empty sections, multi-line values, "
         "malformed lines; the real econftool binary (ASan build of util/econftool.c + lib) is run for show, syntax and cat; "
         "stdout, the error line on stderr and the exit status are compared with the model of the tool, which is built on the "
         "model of the library's readers (so the tool is compared with what an application would get); distinct by scenario")
@@ -16,6 +16,8 @@ def content(rng, tag):
     if r < 0.35: return b"[S]\nk=" + tag + b"\n[E]\n[T]\nz=1\n cont\n"
     if r < 0.45: return b"only=" + tag + b"\n[broken\n"
     if r < 0.5: return b"key value without delimiter\n"
+    if r < 0.65:   # both comment characters in use: a standalone note, a note below an entry, a trailing note
+        return b"; note of " + tag + b"\na=" + tag + b" ; trailing\n# hash note\nb=2\n; below an entry\n[S]\nc=3 # t\n"
     return trees.content(rng, tag)
 
 def materialise(root, cmds):
@@ -56,11 +58,11 @@ def check(tier, seed):
         cov.update(evaluations=0, distinct_nontrivial=0, samples=[], rule=RULE)
         vlib.write_evidence(pid, tier, seed, cov, time.time() - t0, 1)
         print("VIOLATION property=%s replay=%s no-failing-input-found" % (pid, p)); return 1
-    n = 120 if tier == "quick" else 6000
+    n = 360 if tier == "quick" else 6000
     scen, meta = [], []
     for _ in range(n):
         name = rng.choice([b"foo", b"bar"]); sfx = rng.choice([b"conf", b"cfg"])
-        dl = rng.choice([b"=", b"=", b":=", b" "]); cm = rng.choice([b"#", b";"])
+        dl = rng.choice([b"=", b"=", b":=", b" "]); cm = rng.choice([b"#", b";", b"#;", b";#", b"#"])
         cmds = []
         for li, d in enumerate([b"/usr/etc", b"/etc"]):
             cmds.append(trees.fsdir(d))
